@@ -203,3 +203,52 @@ Example C12_observer_hypotheses_satisfiable :
 Proof. split; [apply idle_env_pure | split; [apply idle_env_pure | split; [apply idle_envs_differ_in_observers | vm_compute; discriminate]]]. Qed.
 Example C12_impure_observer_refused : obs_chk [1] [1; 3] impure_observer_example = false.
 Proof. exact impure_observer_example_refused. Qed.
+
+(** * FFT wisdom (strengthening driven by seed F1-I; Model/Wisdom.v, Proofs/WisdomP.v, per-run obligations in
+      Proofs/WisdomMainP.v; generated: Gen/Gen_Wisdom.v from src/FFTWWrapper.cpp and src/IO/FSPath.cpp)
+
+    "Two runs with identical parameters and the same FFT wisdom produce bit-identical physics datasets": every planner
+    call of fft::prepareFFT measures run times ([wisdom_planner_timed]), so which plan a run gets WITHOUT stored wisdom
+    is outside any model - the program's answer is the wisdom files.  The logic around them is a state machine
+    `run : directory -> directory` over the generated table of prepareFFT bodies.  Per-run obligation [wis_ok]: the path
+    is built by FSPath::append (which creates the directory: read off FSPath.cpp), the wisdom is imported before the
+    wisdom-only plan, and the create branch plans first and exports afterwards.  Then, for every state of the wisdom
+    directory the first run finds (missing, empty, unreadable files, files without the wisdom of their own transform)
+    and every sequence of transforms the program prepares: the second run plans nothing, writes nothing, and every
+    prepared transform has a readable wisdom file.  Outside the model: FFTW's planner itself (that a plan re-created
+    from wisdom is the stored plan) - the repeated runs of the check. *)
+From Coq Require Import String.
+From Inovesa Require Model.Wisdom Gen.Gen_Wisdom Proofs.WisdomP Proofs.WisdomMainP.
+
+Theorem C12_wisdom_after_one_run_nothing_is_planned :
+  WisdomP.wis_ok WisdomMainP.main_mkdir Gen_Wisdom.wisdom_table = true /\
+  forall (fs0 : Wisdom.fsys) (reqs : list Wisdom.key),
+    (forall k, In k reqs -> WisdomP.handled Gen_Wisdom.wisdom_table k = true) ->
+    let fs1 := Wisdom.p_fs (Wisdom.run WisdomMainP.main_mkdir Gen_Wisdom.wisdom_table reqs fs0) in
+    Wisdom.p_planned (Wisdom.run WisdomMainP.main_mkdir Gen_Wisdom.wisdom_table reqs fs1) = [] /\
+    Wisdom.p_written (Wisdom.run WisdomMainP.main_mkdir Gen_Wisdom.wisdom_table reqs fs1) = [] /\
+    Wisdom.p_fs (Wisdom.run WisdomMainP.main_mkdir Gen_Wisdom.wisdom_table reqs fs1) = fs1 /\
+    (forall k, In k reqs -> exists w, Wisdom.lookup k (Wisdom.fs_files fs1) = Some (Some w)).
+Proof. exact (conj WisdomMainP.main_wisdom_checked WisdomMainP.main_wisdom_after_one_run). Qed.
+Print Assumptions C12_wisdom_after_one_run_nothing_is_planned.
+
+(** non-vacuity: the table handles the transforms of the field objects; from a missing directory the first run does plan
+    and write; and three slips - a plain string as path (seed F1-I), export before the plan, an append that creates
+    nothing - are refused by the checker AND have a second run that plans again *)
+Example C12_wisdom_first_run_plans :
+  let r := Wisdom.run WisdomMainP.main_mkdir Gen_Wisdom.wisdom_table [("r2c32"%string, 128); ("c2r32"%string, 128)] (Wisdom.mkfs false []) in
+  Wisdom.p_planned r = [("r2c32"%string, 128); ("c2r32"%string, 128)] /\ Wisdom.p_written r = Wisdom.p_planned r /\
+  Wisdom.p_logged r = Wisdom.p_planned r /\ Wisdom.fs_dir (Wisdom.p_fs r) = true.
+Proof. exact WisdomMainP.main_first_run_plans. Qed.
+Example C12_wisdom_handles_the_fields : forall n,
+  WisdomP.handled Gen_Wisdom.wisdom_table ("r2c32"%string, n) = true /\ WisdomP.handled Gen_Wisdom.wisdom_table ("c2r32"%string, n) = true.
+Proof. exact WisdomMainP.main_handles_the_fields. Qed.
+Example C12_wisdom_slips_refused :
+  WisdomP.second_run_planned true (WisdomP.tb_of Wisdom.PPlainString [Wisdom.WImportThen [Wisdom.WPlan true]; Wisdom.WIfNoPlan [Wisdom.WPlan false; Wisdom.WExport; Wisdom.WLog]]) = [WisdomP.k0] /\
+  WisdomP.second_run_planned true (WisdomP.tb_of Wisdom.PFSPathAppend [Wisdom.WImportThen [Wisdom.WPlan true]; Wisdom.WIfNoPlan [Wisdom.WExport; Wisdom.WPlan false; Wisdom.WLog]]) = [WisdomP.k0] /\
+  WisdomP.second_run_planned false (WisdomP.tb_of Wisdom.PFSPathAppend WisdomP.canon) = [WisdomP.k0] /\
+  WisdomP.wis_ok false (WisdomP.tb_of Wisdom.PFSPathAppend WisdomP.canon) = false.
+Proof.
+  exact (conj (proj2 WisdomP.plain_string_path_replans) (conj (proj2 WisdomP.export_before_plan_replans)
+        (conj (proj2 WisdomP.append_without_mkdir_replans) (proj1 WisdomP.append_without_mkdir_replans)))).
+Qed.
